@@ -27,6 +27,8 @@ pub enum Expr {
     Var(String),
     Mac(String),
     Sel(String),
+    /// input-context selector: `&index`, `&started-at-line-number`, ... (the name without `&`)
+    Ctx(String),
 }
 
 impl Expr {
@@ -169,6 +171,10 @@ fn print_into(e: &Expr, sp: &Spell, mix: &mut crate::gen::Mix, out: &mut String)
             out.push('/');
             out.push_str(n);
             out.push('/');
+        }
+        Expr::Ctx(n) => {
+            out.push('&');
+            out.push_str(n);
         }
         Expr::Call { f, args } => {
             let mut name: &str = f;
@@ -616,10 +622,12 @@ pub struct GenCfg {
     pub dot_bias: bool,
     /// deepest `^` the generator may write (usize::MAX = whatever the chain offers)
     pub max_up: usize,
+    /// allow input-context selectors (&index, &started-at-line-number, ...) as leaves
+    pub ctx: bool,
 }
 impl Default for GenCfg {
     fn default() -> Self {
-        GenCfg { ill: 3, chars: Chars::Bmp, bindings: true, wild_numbers: false, exclude: vec!["exec", "trigger", "now"], max_coll: 4, bind_bias: false, dot_bias: false, max_up: usize::MAX }
+        GenCfg { ill: 3, chars: Chars::Bmp, bindings: true, wild_numbers: false, exclude: vec!["exec", "trigger", "now"], max_coll: 4, bind_bias: false, dot_bias: false, max_up: usize::MAX, ctx: false }
     }
 }
 
@@ -907,6 +915,10 @@ impl<'a> Gen<'a> {
             if satisfies(*k, want) {
                 cands.push(Expr::Sel(n.clone()));
             }
+        }
+        if self.cfg.ctx && matches!(want, Int | Num | Any | Str) && self.tape.chance(1, 7) {
+            let n = if want == Str { "file-name" } else { self.tape.pick_s(&["index", "index-in-file", "started-at-line-number", "started-at-char-number", "ended-at-line-number", "ended-at-char-number"]) };
+            return Expr::Ctx(n.to_string());
         }
         // choice 0 = literal (simplest)
         let lit_w = if cands.is_empty() { 1 } else { 2 };
